@@ -503,7 +503,45 @@ class Repo(object):
                 return l in r
             if isinstance(op, ast.NotIn):
                 return l not in r
+            if isinstance(op, ast.Is):
+                return l is r
+            if isinstance(op, ast.IsNot):
+                return l is not r
+            try:
+                if isinstance(op, ast.Lt):
+                    return l < r
+                if isinstance(op, ast.LtE):
+                    return l <= r
+                if isinstance(op, ast.Gt):
+                    return l > r
+                if isinstance(op, ast.GtE):
+                    return l >= r
+            except TypeError as e:
+                raise Unknown("compare failed: %s" % e)
             raise Unknown("compare")
+        if isinstance(node, ast.Compare):
+            left = ev(node.left)
+            for op, right in zip(node.ops, node.comparators):
+                r = ev(right)
+                sub = ast.Compare(left=ast.Constant(left), ops=[op], comparators=[ast.Constant(r)])
+                if not self.ceval(module, sub, env):
+                    return False
+                left = r
+            return True
+        if isinstance(node, ast.BoolOp):
+            if isinstance(node.op, ast.And):
+                v = True
+                for x in node.values:
+                    v = ev(x)
+                    if not v:
+                        return v
+                return v
+            v = False
+            for x in node.values:
+                v = ev(x)
+                if v:
+                    return v
+            return v
         if isinstance(node, ast.Subscript):
             v = ev(node.value)
             if isinstance(node.slice, ast.Slice):
